@@ -1,9 +1,12 @@
 package rules
 
 import (
+	"go/constant"
 	"fmt"
 	"strings"
 	"text/template/parse"
+
+	"golang.org/x/tools/go/ssa"
 
 	"hapverif/internal/core"
 )
@@ -337,6 +340,7 @@ func init() {
 
 func templateMethods(c *core.Ctx) {
 	names := map[string]bool{}
+	funcs := map[string]bool{} // function identifiers of the templates (resolved through the FuncMap)
 	for _, f := range tmplFiles {
 		t, err := c.LoadTemplate(f)
 		if err != nil {
@@ -359,6 +363,8 @@ func templateMethods(c *core.Ctx) {
 					names[id] = true
 				}
 				walk(x.Node)
+			case *parse.IdentifierNode:
+				funcs[x.Ident] = true
 			case *parse.PipeNode:
 				for _, cmd := range x.Cmds {
 					walk(cmd)
@@ -403,4 +409,41 @@ func templateMethods(c *core.Ctx) {
 		}
 	}
 	c.Check(n >= 40, "model methods called by the templates", "", fmt.Sprintf("%d methods anchored", n), fmt.Sprintf("only %d methods of the model match identifiers of the templates", n))
+	// the helper functions the templates call by name: the entries of the FuncMap built by createFuncMap
+	if fm := c.Fn("haproxy/template", "createFuncMap"); fm != nil {
+		used := 0
+		for _, b := range fm.Blocks {
+			for _, in := range b.Instrs {
+				mu, ok := in.(*ssa.MapUpdate)
+				if !ok {
+					continue
+				}
+				k, ok := mu.Key.(*ssa.Const)
+				if !ok || k.Value == nil || k.Value.Kind() != constant.String {
+					continue
+				}
+				if funcs[constant.StringVal(k.Value)] {
+					used++
+					v := mu.Value
+					if mi, ok := v.(*ssa.MakeInterface); ok {
+						v = mi.X
+					}
+					switch f := v.(type) {
+					case *ssa.MakeClosure:
+						if cf, ok := f.Fn.(*ssa.Function); ok {
+							c.Touch(cf)
+						}
+					case *ssa.Function:
+						c.Touch(f)
+					}
+				}
+			}
+		}
+		c.Touch(fm)
+		c.Check(used >= 2, "helper functions called by the templates", c.Pos(fm.Pos()), fmt.Sprintf("%d entries of the FuncMap are called by the templates and anchored", used), fmt.Sprintf("only %d entries of the FuncMap match function identifiers of the templates", used))
+	}
+	// which template files are loaded, with which function map
+	if fn := c.Fn("haproxy", "instance.ParseTemplates"); fn != nil {
+		c.Touch(fn)
+	}
 }
